@@ -712,8 +712,8 @@ func genC10(e *emitter, tier string, seed uint64) {
 		for mi, mode := range s.modes {
 			b := &c10B{}
 			s.build(b, mode)
-			if tier == "quick" && mi > 1 && !s.allModesQuick {
-				continue
+			if tier == "quick" && !s.allModesQuick && mi >= c10QuickModes(s.name) {
+				continue // the remaining modes run on the thorough tier
 			}
 			if !s.noHealthy {
 				add(s, mode, b.total, "none", b)
@@ -757,6 +757,15 @@ func replayC10(e *emitter, kind string, f []string) {
 	k, _ := strconv.Atoi(f[5])
 	r := c10Req{scn: f[0], mode: f[1], k: k, fault: f[6], b: b}
 	c10Emit(e, r, c10RunAll([]c10Req{r})[0])
+}
+
+// c10QuickModes: how many consumption modes of a streaming scenario the quick tier runs
+func c10QuickModes(name string) int {
+	switch name {
+	case "list", "expunge", "fetch-two-lits", "fetch-lit40":
+		return 2
+	}
+	return 1
 }
 
 type c10CorpusCase struct {
